@@ -2,7 +2,9 @@ package main
 
 import (
 	"bytes"
+	"encoding/hex"
 	"fmt"
+	"io"
 	"os"
 	"os/exec"
 	"path/filepath"
@@ -74,6 +76,41 @@ func run(seed int64, n int, dir string, _ []string) {
 		panic("VERIF_CSVQ and VERIF_SCRATCH must be set")
 	}
 	o.Case("c10.check", "ok") // the model-side search over every prefix of the regenerated sequence
+
+	// ---- the byte-level file model (ftruncate / lseek / write on one descriptor) against the operating system ----
+	for i := 0; i < 30+n/4; i++ {
+		fp, err := os.CreateTemp(scratch, "fbytes-*")
+		must(err)
+		var toks []string
+		steps := g.Intn(8) + 1
+		for k := 0; k < steps; k++ {
+			switch g.Intn(5) {
+			case 0:
+				must(fp.Truncate(0))
+				toks = append(toks, "t")
+			case 1:
+				_, err := fp.Seek(0, io.SeekStart)
+				must(err)
+				toks = append(toks, "s")
+			default:
+				b := make([]byte, g.Intn(6))
+				for j := range b {
+					b[j] = byte(g.Intn(256))
+				}
+				_, err := fp.Write(b)
+				must(err)
+				toks = append(toks, "w:"+hex.EncodeToString(b))
+			}
+		}
+		pos, err := fp.Seek(0, io.SeekCurrent)
+		must(err)
+		content, err := os.ReadFile(fp.Name())
+		must(err)
+		fp.Close()
+		os.Remove(fp.Name())
+		o.Case("c10.fbytes "+strings.Join(toks, " "), fmt.Sprintf("%s@%d", hex.EncodeToString(content), pos))
+		o.NonTrivial(fmt.Sprintf("fbytes:%d:%v", len(toks), len(content) > 0))
+	}
 
 	rounds := n / 40
 	if rounds < 2 {
